@@ -49,12 +49,12 @@ def samples_of(desc):
     return [i for i, nd in enumerate(desc["nodes"]) if nd[0] & 1]
 
 
-def gen_desc(rng, max_nodes=8, max_L=6, min_samples=2, max_sites=4):
+def gen_desc(rng, max_nodes=8, max_L=6, min_samples=2, max_sites=4, p_gap=0.15):
     alle = rng.choice([("0", "1"), ("A", "C", "G", "T"), ("A", "C", "G", "T", "", "AC"), ("0", "1", "2")])
     for _ in range(200):
         d = gen_ts.random_desc(rng, max_nodes=max_nodes, max_L=max_L, max_sites=max_sites, max_muts=4,
                                metadata=False, individuals=False, populations=False,
-                               alleles=alle, scale=1)
+                               alleles=alle, scale=1, p_gap=p_gap)
         if len(samples_of(d)) >= min_samples:
             return d
     raise RuntimeError("no description with enough samples")
@@ -257,6 +257,18 @@ def general_exact(desc, W, f, m, wins, mode, polarised, span_normalise, forests=
             else:
                 acc = vscale(1 / (b - a), acc)
         out.append(acc)
+    # A summary function whose denominator vanishes for these sample-set sizes (it then
+    # does so for every state, e.g. diversity of a single sample) is nan for every node in
+    # the C code, and the running sums never recover from nan: the whole output column is
+    # unspecified ("do not rely on 0 or nan", docs/stats.md), also for windows without terms.
+    z = f([Fr(0)] * k)
+    degenerate = [j for j in range(m) if z[j] is UNDEF]
+    if degenerate:
+        def kill(row):
+            if row and isinstance(row[0], list):
+                return [kill(r) for r in row]
+            return [UNDEF if j in degenerate else v for j, v in enumerate(row)]
+        out = [kill(r) for r in out]
     return out
 
 
@@ -455,7 +467,7 @@ def build_ts(desc):
 
 # ---- Coq term printing (Q_scope) -------------------------------------------------
 
-PRELUDE = ("From Coq Require Import QArith.\nFrom TskVerif Require Import Base.Common C08.Model C08.Incremental C08.Afs C08.Shapes.\n"
+PRELUDE = ("From Coq Require Import QArith.\nFrom TskVerif Require Import Base.Common C08.Model C08.Incremental C08.Afs C08.Shapes C08.PairSpan.\n"
            "Open Scope Q_scope.")
 
 
@@ -1226,6 +1238,9 @@ class AFS(Family):
                     "windows": random_windows(rng, desc)}
             if r < 0.2:
                 case["sets"], case["none"] = [list(smp)], True
+            elif r < 0.45:       # the configuration modelled in Coq (C08.Afs)
+                case["sets"], case["none"] = random_sample_sets(rng, desc, 1, 1), False
+                case["mode"], case["polarised"] = "branch", True
             else:
                 case["sets"], case["none"] = random_sample_sets(rng, desc, 1, 3, disjoint=rng.random() < 0.5), False
             yield with_refinement(rng, case, desc)
@@ -1580,6 +1595,30 @@ def pair_coalescence_exact(desc, sets, idx, wins, span_normalise, pair_normalise
     return out
 
 
+def pcc_code_spans(desc, wins):
+    """Port of the window-span bookkeeping of tsk_treeseq_pair_coalescence_stat
+    (c/tskit/trees.c 9525-9592): NOT the definition (finding C08-F3: when a window ends
+    inside an interval without edges the part beyond the window end is subtracted a second
+    time instead of being added back); used only to recognise that defect."""
+    bps = [Fr(x) for x in gen_ts.breakpoints(desc)]
+    spans, missing, w = [], Fr(0), 0
+    nw = len(wins) - 1
+    for left, right in zip(bps[:-1], bps[1:]):
+        empty = all(p_ == NULL for p_ in gen_ts.parent_at(desc, left))
+        if empty:
+            missing += right - left
+        while w < nw and wins[w + 1] <= right:
+            span = wins[w + 1] - wins[w] - missing
+            missing = Fr(0)
+            if empty:
+                rem = right - wins[w + 1]
+                span -= rem
+                missing += rem
+            spans.append(span)
+            w += 1
+    return spans
+
+
 class Dedicated(Family):
     name = "dedicated"
     workers = 8
@@ -1588,10 +1627,11 @@ class Dedicated(Family):
     def generate(self, rng, tier):
         n = 240 if tier == "quick" else 3600
         for i in range(n):
-            desc = gen_desc(rng, max_nodes=9 if i % 3 else 12, max_L=6 if i % 3 else 10, max_sites=0)
+            what = ["mean_descendants", "gnn", "pair_coalescence_counts"][i % 3]
+            desc = gen_desc(rng, max_nodes=9 if i % 2 else 12, max_L=6 if i % 2 else 10, max_sites=0,
+                            p_gap=0.45 if (what == "pair_coalescence_counts" and i % 2) else 0.15)
             smp = samples_of(desc)
             N = len(desc["nodes"])
-            what = ["mean_descendants", "gnn", "pair_coalescence_counts"][i % 3]
             case = {"desc": desc, "what": what}
             if what == "mean_descendants":
                 # reference sets may be any nodes
@@ -1618,7 +1658,7 @@ class Dedicated(Family):
                     case["indexes"] = None
                 else:
                     case["indexes"] = [[rng.randrange(len(sets)), rng.randrange(len(sets))] for _ in range(rng.randrange(1, 4))]
-                case["windows"] = random_windows(rng, desc, rng.choice(["none", "list", "list", "trees"]))
+                case["windows"] = random_windows(rng, desc, rng.choice(["none", "list", "list", "list", "trees"]))
                 case["wins"] = [enc(w) for w in resolve_windows(desc, case["windows"])]
                 case["span_normalise"] = rng.random() < 0.5
                 case["pair_normalise"] = rng.random() < 0.4
@@ -1637,9 +1677,11 @@ class Dedicated(Family):
             w = win_arg(case["windows"])
             if isinstance(w, str):
                 w = [float(fr(x)) for x in case["wins"]]
-            return {"out": encf(ts.pair_coalescence_counts(
-                sample_sets=case["sets"], indexes=None if case["indexes"] is None else [tuple(t) for t in case["indexes"]],
-                windows=w, span_normalise=case["span_normalise"], pair_normalise=case["pair_normalise"]))}
+            kw = dict(sample_sets=case["sets"], indexes=None if case["indexes"] is None else [tuple(t) for t in case["indexes"]],
+                      windows=w, pair_normalise=case["pair_normalise"])
+            return {"out": encf(ts.pair_coalescence_counts(span_normalise=case["span_normalise"], **kw)),
+                    "raw": encf(ts.pair_coalescence_counts(span_normalise=False, **kw)),
+                    "norm": encf(ts.pair_coalescence_counts(span_normalise=True, **kw))}
         except Exception as e:
             return {"err": type(e).__name__, "msg": str(e)[:200]}
 
@@ -1672,8 +1714,49 @@ class Dedicated(Family):
                 exact = exact[0]
         msgs = compare(obs["out"], exact)
         if msgs:
-            fails.append(("definition/%s" % what, "; ".join(msgs[:3])))
+            key = "definition/%s" % what
+            if what == "pair_coalescence_counts" and case["span_normalise"]:
+                # finding C08-F3: is it exactly the code's window-span bookkeeping?
+                raw = pair_coalescence_exact(desc, sets, [tuple(t) for t in idx], wins, False, case["pair_normalise"])
+                spans = pcc_code_spans(desc, wins)
+                buggy = [[[(v / sp if sp else Fr(0)) for v in row] for row in win] for win, sp in zip(raw, spans)]
+                if case["indexes"] is None:
+                    buggy = [e[0] for e in buggy]
+                if case["windows"] in (None, "none"):
+                    buggy = buggy[0]
+                if not compare(obs["out"], buggy):
+                    key = "pair_coalescence_counts/window-ends-inside-edgeless-interval"
+            fails.append((key, "; ".join(msgs[:3])))
         return fails
+
+    prelude = PRELUDE
+
+    def coq_check(self, case, obs):
+        """pair_coalescence_counts: the window spans implied by the implementation
+        (un-normalised / span-normalised counts) against the port of its span bookkeeping"""
+        if case["what"] != "pair_coalescence_counts" or "err" in obs:
+            return None
+        desc = case["desc"]
+        wins = [fr(x) for x in case["wins"]]
+        raw, norm = obs["raw"], obs["norm"]
+        if case["windows"] in (None, "none"):
+            raw, norm = [raw], [norm]
+        implied = []
+        for rw, nw_ in zip(raw, norm):
+            v = "None"
+            for a, b in zip(flatten(rw), flatten(nw_)):
+                if isinstance(a, str) or isinstance(b, str) or a == 0:
+                    continue
+                v = "(Some %s)" % cq(rat(a) / rat(b) if b != 0 else 0)
+                if b == 0:
+                    # the code multiplies by 0 when its span is 0
+                    v = "(Some %s)" % cq(0)
+                break
+            implied.append(v)
+        bps = gen_ts.breakpoints(desc)
+        trees = "[" + "; ".join("mkpt %s %s %s" % (cq(a), cq(b), "true" if all(p_ == NULL for p_ in gen_ts.parent_at(desc, a)) else "false")
+                                for a, b in zip(bps[:-1], bps[1:])) + "]"
+        return "check_spans (pcc_code_spans %s %s) [%s]" % (trees, cqlist(wins), "; ".join(implied))
 
     def nontrivial(self, case, obs):
         return len(case["desc"]["edges"]) > 0
